@@ -11,7 +11,7 @@ import numpy as np
 import pandas as pd
 
 from . import probes
-from .common import digest
+from .common import digest, scribble
 
 chi = probes.chi
 import pints  # noqa: E402
@@ -80,6 +80,7 @@ def replay_case(arg):
                                     if len(names) > 1 else pints.GaussianLogPrior(10.0, 1.0))
                     prior_names = list(names)
                 cnt['calls'] = cnt.get('calls', 0) + 1
+                scribble(c)
                 exp = [real_name(x) for x in h['names']]
                 got = list(c.get_parameter_names())
                 if got != exp or c.get_n_parameters() != len(exp):
